@@ -6,9 +6,10 @@ dependency parameter) x every payload (each subset of the parameter names, 0-2 e
 payload) x converter; each case runs through the real `_Processor.actor_run`.
 """
 import asyncio
+import inspect
 import itertools
 import json
-from typing import Annotated, Any
+from typing import Annotated, Any, List, Optional, Union
 
 from repid import Connection, Depends, InMemoryMessageBroker
 from repid._processor import _Processor
@@ -245,6 +246,65 @@ def output_roundtrip():
                 continue
             if back != v:
                 viol.append(("output", f"{type(conv).__name__}.convert_outputs({v!r}) decodes to {back!r}"))
+
+    # annotated return types (Pydantic validates and encodes through the annotation)
+    from pydantic import BaseModel
+
+    class Point(BaseModel):
+        x: int
+        y: list[int] = []
+
+    async def h_int() -> int:
+        return 0
+
+    async def h_list() -> list[int]:
+        return []
+
+    async def h_dict() -> dict[str, float]:
+        return {}
+
+    async def h_model() -> Point:
+        return Point(x=0)
+
+    async def h_opt() -> int | None:
+        return None
+
+    async def h_opt2() -> Optional[int]:  # noqa: UP007
+        return None
+
+    async def h_union() -> Union[int, str]:  # noqa: UP007
+        return 0
+
+    async def h_tlist() -> List[Point]:  # noqa: UP006
+        return []
+
+    async def h_tuple() -> tuple[int, str]:
+        return (0, "")
+
+    typed = [
+        (h_int, [0, -7, 2 ** 40]), (h_list, [[], [1, 2, 3]]), (h_dict, [{}, {"a": 1.5, "b": -2.0}]),
+        (h_opt, [None, 5]), (h_opt2, [None, 5]), (h_union, [3, "x"]),
+        (h_tlist, [[], [Point(x=1), Point(x=2, y=[3])]]), (h_tuple, [(1, "a")]),
+        (h_model, [Point(x=1), Point(x=2, y=[3, 4]), {"x": 5, "y": [6]}]),
+    ]
+    for fn, values in typed:
+        try:
+            conv = PydanticConverter(fn)
+        except Exception as e:  # noqa: BLE001
+            n += 1
+            viol.append(("output-annotation", f"an actor annotated `-> {inspect.signature(fn).return_annotation}` cannot be "
+                                              f"registered with the Pydantic converter: {e!r}"))
+            continue
+        for v in values:
+            n += 1
+            want = json.loads(json.dumps(v, default=lambda o: o.model_dump()))
+            try:
+                back = json.loads(conv.convert_outputs(v))
+            except Exception as e:  # noqa: BLE001
+                viol.append(("output", f"PydanticConverter({fn.__name__}).convert_outputs({v!r}) raised {e!r}"))
+                continue
+            if back != want:
+                viol.append(("output", f"PydanticConverter({fn.__name__}).convert_outputs({v!r}) decodes to {back!r}"))
     return viol, n
 
 
